@@ -12,6 +12,7 @@ package main
 
 import (
 	"fmt"
+	"sort"
 	"strings"
 	"time"
 
@@ -176,7 +177,7 @@ func poolBody(c pcfg) func() {
 				rel := 0 // tasks 0..rel-1 of this round may finish (released one by one: their completion orders add nothing)
 				r := r
 				vsched.GoNamed(fmt.Sprintf("overload%d", r), func() {
-					for j := 0; j < c.n+c.q+1; j++ {
+					for j := 0; j < c.n+c.q+3; j++ {
 						j := j
 						t := &task{id: fmt.Sprintf("over%d.%d", r, j)}
 						w.tasks = append(w.tasks, t)
@@ -198,9 +199,15 @@ func poolBody(c pcfg) func() {
 				if w.maxRun > c.n {
 					w.fails = append(w.fails, fmt.Sprintf("bound|%d tasks ran at once in overload round %d, bound is %d", w.maxRun, r, c.n))
 				}
-				for rel < c.n+c.q+1 {
+				// while the parked tasks are released one by one the submitter goes on handing over:
+				// a worker that has moved on to queued tasks is still a worker
+				for rel < c.n+c.q+3 {
 					rel++
 					vsched.WaitIdle()
+					if w.maxRun > c.n {
+						w.fails = append(w.fails, fmt.Sprintf("bound|%d tasks ran at once while overload round %d drained, bound is %d", w.maxRun, r, c.n))
+						break
+					}
 				}
 				for _, t := range w.tasks {
 					if strings.HasPrefix(t.id, fmt.Sprintf("over%d.", r)) && len(t.ends) != 1 {
@@ -244,6 +251,54 @@ func poolBody(c pcfg) func() {
 			}
 			lastCounters = map[string]int{"held_" + fmt.Sprint(held): 1, "parallel_execs": 1}
 			lastOutcome = fmt.Sprintf("held=%d", held)
+		case "drain":
+			// one submitter hands over parked tasks as fast as the pool takes them; the harness
+			// releases one running task at a time, and WHICH one is an explored choice: every
+			// completion order of the running tasks (every assignment of durations) is covered.
+			// Workers that have moved on to queued tasks, the dispatcher and freshly forked workers
+			// together must never exceed the bound, and every task runs exactly once.
+			total := c.each
+			released := make([]bool, total)
+			runningNow := map[int]bool{}
+			vsched.GoNamed("submitter0", func() {
+				for j := 0; j < total; j++ {
+					j := j
+					t := &task{id: fmt.Sprintf("park%d", j)}
+					w.tasks = append(w.tasks, t)
+					t.callSeq = w.tick()
+					tp.Go(func() {
+						w.running++
+						runningNow[j] = true
+						if w.running > w.maxRun {
+							w.maxRun = w.running
+						}
+						t.starts = append(t.starts, w.tick())
+						vsched.Block("parked", func() bool { return released[j] })
+						delete(runningNow, j)
+						w.running--
+						t.ends = append(t.ends, w.tick())
+					})
+					t.retSeq = w.tick()
+				}
+			})
+			for {
+				vsched.WaitIdle()
+				if w.maxRun > c.n {
+					// judged right here: the tasks still parked stay parked
+					vsched.Fail("bound|%d tasks ran at once, bound is %d (workers that moved on to queued tasks + dispatcher + newly forked workers)", w.maxRun, c.n)
+					return
+				}
+				var ids []int
+				for j := range runningNow {
+					ids = append(ids, j)
+				}
+				if len(ids) == 0 {
+					break
+				}
+				sort.Ints(ids)
+				released[ids[vsched.ChooseFree(len(ids), "which running task ends next")]] = true
+			}
+			w.judge(c, true)
 		case "fresh", "capacity":
 			if c.kind == "capacity" {
 				// overload burst: more instantaneous tasks than the pool runs at once
@@ -455,6 +510,10 @@ func build(tier string) []*vkit.Scenario {
 				addPool(pcfg{n: n, q: q, custom: custom, kind: "bound", each: n + 1, panicAt: -1, burst: 3}, P1)
 				if n == 3 || thorough {
 					addPool(pcfg{n: n, q: q, custom: custom, kind: "bound", each: n + 1, panicAt: -1, rounds: 2}, P1-1)
+				}
+				// every completion order of a stream of parked tasks
+				if !custom || thorough {
+					addPool(pcfg{n: n, q: q, custom: custom, kind: "drain", each: n + q + 4, panicAt: -1}, 0)
 				}
 				// several submitters at once against a small queue: nobody but the pool's own threads
 				// may run a task
